@@ -904,6 +904,7 @@ static int t_tls_record(const uint8_t *in, size_t n, int dead)
 	rc = C(tls_record_print(nul, in, n, 0, 0)); r = C(tls_record_print(nul, in, n, f1, 0)); rc = best(rc, r); r = C(tls_record_print(nul, in, n, f2, 0)); rc = best(rc, r);
 	C(tlcp_record_print(nul, in, n, 0, 0)); C(tls12_record_print(nul, in, n, 0, 0)); r = C(tls13_record_print(nul, 0, 0, in, n)); rc = best(rc, r);
 	C(tls13_record_print(nul, 1 << 24, 0, in, n));
+	C(tls_encrypted_record_print(nul, in, n, 0, 0));        // takes the buffer length: a header announcing more than was handed over is its business
 	if (n < 5) return rc;
 	size_t dlen = (size_t)in[3] << 8 | in[4]; if (dlen > n - 5) return rc;
 	// (2) everything else takes a bare `record` pointer and believes bytes 3..4. The record handed over is an allocation of
